@@ -202,6 +202,45 @@ func runC15(c *Ctx, pr *PropertyRun) {
 		}
 	}
 	src.RequireRole("decode")
+
+	// RawXMLValue is copied by value all over the library (appended to
+	// Prop.Raw, returned from Get, ranged over): a capture must never keep
+	// the backing array of the children of an earlier capture
+	fresh := NewRule("C15", "C15.capture-fresh", "every store to RawXMLValue.children is nil, a fresh slice, or an append to the current one — never a reslice of the old one, whose backing array copies of an earlier capture still share (E4)")
+	pr.Rules = append(pr.Rules, fresh)
+	for _, fn := range p.ModFns {
+		if !inLib(fn) || len(fn.Blocks) == 0 || p.isControlFn(fn) {
+			continue
+		}
+		eachInstr(fn, func(_ *ssa.BasicBlock, in ssa.Instruction) {
+			st, ok := in.(*ssa.Store)
+			if !ok {
+				return
+			}
+			fa, ok := st.Addr.(*ssa.FieldAddr)
+			if !ok || namedOf(fa.X.Type()) != raw {
+				return
+			}
+			if _, isSlice := fa.Type().(*types.Pointer).Elem().Underlying().(*types.Slice); !isSlice {
+				return
+			}
+			fresh.Role("children-store")
+			good := true
+			if sl, isSl := st.Val.(*ssa.Slice); isSl {
+				// a reslice of a loaded field of a RawXMLValue
+				if ld, isLd := sl.X.(*ssa.UnOp); isLd {
+					if f2, isFA := ld.X.(*ssa.FieldAddr); isFA && namedOf(f2.X.Type()) == raw {
+						good = false
+					}
+				}
+			}
+			fresh.Ob(good)
+			if !good {
+				fresh.Violation("reslice|"+fnKey(fn), p.instrPos(st), fnKey(fn)+" stores a reslice of the old children back into the value: the backing array is kept, so a copy made of an earlier capture (RawXMLValue is copied by value) sees its children overwritten by the next capture", nil)
+			}
+		})
+	}
+	fresh.RequireRole("children-store")
 }
 
 // tokenStream models (*xml.Decoder).Token as a sequence chosen token by token.
